@@ -966,6 +966,8 @@ func (s *Server) processPublish(cl *Client, pk packets.Packet) error {
 			return err
 		}
 		return nil
+	} else {
+		return nil // any other publish hook error: never forward, never retain
 	}
 
 	if pk.FixedHeader.Retain { // [MQTT-3.3.1-5] ![MQTT-3.3.1-8]
